@@ -50,7 +50,9 @@ def tag_lists():
     out += [None, [""], [" income"], ["income "], ["incomes"], ["transfers"], ["reinvestment"], ["in come"],
             ["income", "income"], ["Income", "INCOME", "transfer"],
             ["income:salary"], ["transfer:out"], ["investment:ira"], ["Income:Salary", "food"], ["income.salary"], ["income-salary"], ["income_salary"],
-            ["x:income"], ["income:"], [":income"], ["income/salary"], ["income salary"], ["#income"], ["transfer,income"]]
+            ["x:income"], ["income:"], [":income"], ["income/salary"], ["income salary"], ["#income"], ["transfer,income"],
+            # non-ASCII look-alikes whose case mapping is special (both sides must lower-case them the same way)
+            ["\u0130ncome"], ["\u0131nvestment"], ["tran\u017ffer"], ["INCOME\u0307"], ["\uff49ncome"], ["TRANSFER\u00a0"], ["\ufeffincome"], ["inco\u00adme"]]
     # de-duplicate, keep order
     seen, res = set(), []
     for t in out:
